@@ -4,7 +4,7 @@ from ..fn import World
 from ..index import AnalysisError, dotted
 from ..astutil import text, short, endswith, calls_in, walk_no_nested, names_loaded
 from ..dataflow import DefUse
-from ._h_F import (ifn, Res, res_of, call_arg, absent, canon, strip_wrappers, iterations,
+from ._h_F import (ifn, sole_arg, Res, res_of, call_arg, absent, canon, strip_wrappers, iterations,
                    loop_body_nodes, every_iteration)
 
 EXPLANATION = (
@@ -174,7 +174,8 @@ def r2_table_data(run, w):
       continue
     cellv, convv = [text(x) for x in n.stmt.target.elts]
     if any(isinstance(c.func, ast.Attribute) and c.func.attr == "convert_and_add" and
-           text(c.func.value) == convv and [text(a) for a in c.args] == [cellv]
+           text(c.func.value) == convv and sole_arg(c) is not None and
+           text(sole_arg(c)) == cellv
            for c in calls_in(n.stmt.body)):
       feeds.append(n)
   if len({id(n.stmt) for n in feeds}) != 1:
@@ -222,7 +223,8 @@ def r2_table_data(run, w):
     e = chain[0].elt
     tg = chain[0].loops[0][0]
     ok = isinstance(e, ast.Call) and endswith(fn.name(e) or "", "ColumnConverter") and \
-        [text(a) for a in e.args] == [text(tg)] and len(r.defs.get(CC, ())) == 1
+        sole_arg(e) is not None and text(sole_arg(e)) == text(tg) and \
+        len(r.defs.get(CC, ())) == 1
   run.ob(R2, fn.qualname, "col_converters = [ColumnConverter(c) for c in converters]",
          "one column converter per converter", ok, fi=fn.fi)
   # the name of the converter list itself (for the padding amount)
